@@ -274,38 +274,63 @@ func tryVariants(o *Obligation, full string, dir string, timeoutMs int, tried *[
 		}
 	}
 	genMu.Unlock()
+	// all variants run side by side (a false goal costs every variant its whole budget, so they must not queue up)
+	type job struct {
+		kind string // "A", "B" (split cases) or "S" (slice)
+		idx  int
+		sc   string
+	}
+	var jobs []job
 	if len(splits) == 2 {
-		proved := 0
-		var by []string
 		for c, variants := range splits {
-			ok := false
 			for v, sc := range variants {
-				rs := SolveFast(sc, dir, fmt.Sprintf("%s.split%c%d", o.Name, 'A'+c, v), timeoutMs)
-				*ms += rs.Ms
-				*tried = append(*tried, fmt.Sprintf("split%c%d[%s]", 'A'+c, v, strings.Join(rs.Tried, " ")))
-				if rs.Status == "unsat" {
-					ok = true
-					by = append(by, rs.Solver)
-					break
-				}
+				jobs = append(jobs, job{string(rune('A' + c)), v, sc})
 			}
-			if !ok {
-				break
-			}
-			proved++
-		}
-		if proved == 2 {
-			return &SolverResult{Status: "unsat", Solver: strings.Join(by, "+") + "(last-index split)"}
 		}
 	}
 	for h, sc := range sliced {
-		rs := SolveFast(sc, dir, fmt.Sprintf("%s.slice%d", o.Name, h), timeoutMs)
-		*ms += rs.Ms
-		*tried = append(*tried, fmt.Sprintf("slice%d[%s]", h, strings.Join(rs.Tried, " ")))
-		if rs.Status == "unsat" {
-			return &SolverResult{Status: "unsat", Solver: fmt.Sprintf("%s(slice%d)", rs.Solver, h)}
+		jobs = append(jobs, job{"S", h, sc})
+	}
+	if len(jobs) == 0 {
+		return nil
+	}
+	type res struct {
+		j job
+		r *SolverResult
+	}
+	ch := make(chan res, len(jobs))
+	for _, jb := range jobs {
+		jb := jb
+		go func() {
+			ch <- res{jb, SolveFast(jb.sc, dir, fmt.Sprintf("%s.var%s%d", o.Name, jb.kind, jb.idx), timeoutMs)}
+		}()
+	}
+	by := map[string]string{}
+	var worst int64
+	for range jobs {
+		x := <-ch
+		if x.r.Ms > worst {
+			worst = x.r.Ms
+		}
+		*tried = append(*tried, fmt.Sprintf("var%s%d[%s]", x.j.kind, x.j.idx, strings.Join(x.r.Tried, " ")))
+		if x.r.Status == "unsat" {
+			if _, ok := by[x.j.kind]; !ok {
+				by[x.j.kind] = x.r.Solver
+			}
+			// proved: do not wait for the variants that are still running (they end at their own time limit)
+			if s, ok := by["S"]; ok {
+				*ms += worst
+				return &SolverResult{Status: "unsat", Solver: s + "(context slice)"}
+			}
+			if a, ok := by["A"]; ok {
+				if b, ok := by["B"]; ok {
+					*ms += worst
+					return &SolverResult{Status: "unsat", Solver: a + "+" + b + "(last-index split)"}
+				}
+			}
 		}
 	}
+	*ms += worst
 	return nil
 }
 
@@ -425,7 +450,7 @@ func solveAllSkipping(obls []*Obligation, scripts []string, valueNames [][]strin
 			defer func() { <-sem2 }()
 			var tried []string
 			var ms int64
-			if rv := tryVariants(obls[i], scripts[i], dir, timeoutMs, &tried, &ms); rv != nil {
+			if rv := tryVariants(obls[i], scripts[i], dir, 2*timeoutMs, &tried, &ms); rv != nil {
 				rv.Ms = r.R.Ms + ms
 				rv.Tried = append(r.R.Tried, tried...)
 				results[i] = &oblResult{O: obls[i], R: rv}
@@ -781,6 +806,9 @@ type replayInfo struct {
 
 func writeReplay(verif, prop string, r *oblResult, p *Program) replayInfo {
 	dir := filepath.Join(verif, "replays", prop)
+	if rd := os.Getenv("VERIF_REPLAY_DIR"); rd != "" {
+		dir = filepath.Join(rd, prop)
+	}
 	os.MkdirAll(dir, 0o755)
 	safe := strings.NewReplacer("/", "_", "(", "", ")", "", "*", "P", " ", "", ":", "_", "#", "-").Replace(r.O.Name)
 	path := filepath.Join(dir, safe+".json")
